@@ -30,6 +30,42 @@ CHECKS = {
              "compared byte-for-byte with the extracted model on boundary + random records, arbitrary byte strings, golden vectors.",
         design="7/C19", technique="Coq proof (algebraic round-trip, layout lemma) + byte-level correspondence run",
         note="Bytes modelled as N < 256; only the canonical 36-character UUID text form is modelled. " + NOTE_COMMON),
+    "C11": dict(
+        text="This revision covers the error-class and isolation-level mapping of C11; the streaming and whole-history parts are "
+             "added later (not claimed yet). Theorems (Coq, every error tree: any depth of fmt.Errorf %w wrapping and errors.Join "
+             "over the ten sentinels and foreign errors), stated over switch tables regenerated from the Go AST on every run: "
+             "ClientError(Error(e)) matches exactly one sentinel, the class announced by the server; that class is a specific "
+             "exported class of e whenever e has one and ErrUnknown otherwise (foreign and config errors become ErrUnknown); the "
+             "status code alone leads to the same class except for ErrHeaderNotFound (named exception: no status-code case, "
+             "travels as Internal, recognised by the detail only); unused status codes read as ErrUnknown; the four isolation "
+             "levels round-trip in both directions, out-of-range numbers become ReadCommitted. Refuted and stated as such: the "
+             "full errors.Is set is not preserved (a join of two classes keeps the first; a foreign error gains ErrUnknown). "
+             "Tie: every case is pushed through the real adapter/errors.Error -> marshalled status -> ClientError and "
+             "adapter/iso_level via a verif-tagged accessor and compared line by line with the extracted model (exhaustive: "
+             "sentinels x 7 wrappings, all ordered pairs, all ordered triples of exported classes, 18 status codes x 11 details, "
+             "all 256 level numbers; plus seeded random trees of depth <= 6); the property oracle is evaluated on the "
+             "implementation's own answers.",
+        design="7/C11", technique="Coq proof (reduction of all error trees to 1024 match sets decided by vm_compute over generated "
+                                  "tables) + Go-AST translator + exhaustive and random correspondence run",
+        note="Part (a) of C11 only. The translator harness/gen_errmap.go is trusted to list switch cases in source order and "
+             "refuses unknown shapes; custom error types with their own Is/Unwrap are outside the model. " + NOTE_COMMON),
+    "C20": dict(
+        text="Theorems (Coq, all inputs): for each of the seven settings the value returned by ParseConfig is the environment "
+             "value if set, non-empty and well-formed, else the file value if present, else the documented default "
+             "(8888, test_db, 1000000, [./testStorage], 1m, GOMAXPROCS, 1ms); ParseConfig fails iff the named file cannot be "
+             "opened, a present file value is malformed, or a non-empty environment value is malformed, and which error wins "
+             "(file first, then the first malformed variable in os.LookupEnv order); Storage.Valid returns ErrEmptyDbPath first, "
+             "then ErrEmptyRootDirs, otherwise only raises maxDirCount to max 100; ROOT_DIRS splitting on ';' is inverse to "
+             "joining. Constants, environment names, LookupEnv order and the defaultConfig wiring are regenerated from "
+             "config/config.go (go/ast translator) on every run and pinned to the documented values by theorems. "
+             "Tie: real config.ParseConfig + Storage.Valid run in a child process per case (generated YAML file, exact "
+             "environment) on all 7x12x3 per-setting combinations, every malformed-text variant, random full combinations and "
+             "Valid grids, compared line by line with the extracted model; a sample is re-evaluated by vm_compute.",
+        design="7/C20", technique="Coq proof (case analysis over a decision-list form of ParseEnv) + go/ast translator for "
+                                  "constants + exhaustive/random child-process correspondence run",
+        note="YAML decoding and strconv/time.ParseDuration are abstracted to 'value v | malformed' (what yaml.v2 coerces, e.g. "
+             "`port: 1.5` -> 1, counts as a value); errors are compared as classes, so the first-malformed-wins order is tied to "
+             "the source only through the translator. " + NOTE_COMMON),
 }
 
 NOT_YET = {}
